@@ -90,7 +90,8 @@ def load_known():
 # --------------------------------------------------------------------------- unit runners
 
 def run_verus_unit(uname, ucfg, tier, scratch):
-    unit = {"name": uname, "template": os.path.join(VERIF, ucfg["template"]), "timeout": ucfg.get("timeout", 600)}
+    unit = {"name": uname, "template": os.path.join(VERIF, ucfg["template"]), "timeout": ucfg.get("timeout", 600),
+            "subst": ucfg.get("subst")}
     rlimit = ucfg.get("rlimit")
     if tier == "thorough":
         rlimit = (rlimit or 10) * 2
